@@ -356,7 +356,9 @@ class BaseTemplate:
             self.engine,
             module,
             str(self.filename),
-            body,
+            # Positions refer to the text that was parsed, which is not
+            # the body as given if line endings had to be converted.
+            getattr(program, 'source', body),
             builtins=builtins,
             strict=self.strict
         )
